@@ -528,7 +528,11 @@ class KeyCache:
                 l1_key=l1_seed,
                 l2_key=b"",
             )
-            return self._seed_keys.setdefault(root_key_id, {}).setdefault(target_sd, {}).setdefault(l0, gke)
+            # The key derived from the root key covers every L1/L2 index and
+            # must replace a cached key from a previous RPC call which, at this
+            # point, is known not to cover the requested index.
+            self._seed_keys.setdefault(root_key_id, {}).setdefault(target_sd, {})[l0] = gke
+            return gke
 
         return None
 
